@@ -260,6 +260,12 @@ fn judge_pair(family: &str, problem: &PProblem, cfg: &SolveCfg, report: &mut Rep
                     })
                 })
             });
+            // the checker cannot match the activities of a multi-task job whose tasks carry no tags: one class
+            let normalized = if normalized.starts_with("cannot match activities to jobs") || normalized.starts_with("checker requires that multi job activity must have tag") || normalized.starts_with("cannot check multi job without unique tags") {
+                "multi-job-without-tags".to_string()
+            } else {
+                normalized
+            };
             // "load mismatch at stop N" / "at stops N, M": one class
             let normalized = if normalized.starts_with("load mismatch") { "load mismatch".to_string() } else { normalized };
             if std::env::var("VERIF_DUMP").is_ok() {
